@@ -216,14 +216,14 @@ func (u *uploader) ListParts(bucket, object string, uploadID UploadID, marker in
 	}
 
 	var cnt int64
-	for partNumber, part := range mpu.parts[marker:] {
-		if part == nil {
+	for partNumber, part := range mpu.parts {
+		// the marker is the last part number of the previous page
+		if part == nil || partNumber <= marker {
 			continue
 		}
 
 		if cnt >= limit {
 			result.IsTruncated = true
-			result.NextPartNumberMarker = partNumber
 			break
 		}
 
@@ -233,6 +233,7 @@ func (u *uploader) ListParts(bucket, object string, uploadID UploadID, marker in
 			PartNumber:   partNumber,
 			LastModified: part.LastModified,
 		})
+		result.NextPartNumberMarker = partNumber
 
 		cnt++
 	}
